@@ -6,7 +6,7 @@ Require Import MD.Lib.Strided MD.Load.Model MD.Load.Lemmas MD.Load.Proofs MD.Loa
 
 Lemma expr_eqb_eq a : forall b, expr_eqb a b = true -> a = b.
 Proof.
-  induction a as [| | | |k|a1 I1 a2 I2|a1 I1 a2 I2|a1 I1 a2 I2|a1 I1 a2 I2]; intros b H;
+  induction a as [| | | | |k|a1 I1 a2 I2|a1 I1 a2 I2|a1 I1 a2 I2|a1 I1 a2 I2]; intros b H;
     destruct b; cbn in H; try discriminate; try reflexivity;
     try (apply Nat.eqb_eq in H; now subst);
     apply andb_true_iff in H as [H1 H2]; f_equal; auto.
@@ -115,17 +115,27 @@ Qed.
 
 Theorem classify_sound r fm : classify r = Some fm ->
   (forall f s n str ai, 1 <= str -> reader_sem r f s n str ai = rd junk fm f s n str ai) /\
-  (forall f s k, reader_seek r f s k = sk fm f s k).
+  (forall f s k, cnt s = pos s -> reader_seek r f s k = sk fm f s k).
 Proof.
   unfold classify, reader_sem, reader_seek. destruct (check_pass (r_pass r)) eqn:Ep; [|discriminate].
   destruct (r_read r) as [t|t] eqn:Eb; destruct (r_seek r) eqn:Ek; try discriminate; intros H.
   - split.
-    2:{ intros f s k. unfold check_slice in H.
+    2:{ intros f s k _. unfold check_slice in H.
         destruct (sterm_eqb t sterm_arr); [inversion H; subst fm; reflexivity|].
         destruct (sterm_eqb t sterm_nc); [inversion H; subst fm; reflexivity|discriminate]. }
     intros f s n str ai Hs. rewrite (check_pass_sound _ _ Ep). cbn [body_sem].
     now apply check_slice_sound.
-  - destruct (check_loop t) eqn:El; [|discriminate]. inversion H; subst fm. split; [|reflexivity].
+  - destruct (check_loop t) eqn:El; [|discriminate]. cbn [andb] in H.
+    destruct (expr_eqb adv (Sub Vo Vi)) eqn:Ea; [|discriminate]. destruct (expr_eqb ab Vo) eqn:Eb2; [|discriminate].
+    apply expr_eqb_eq in Ea, Eb2. subst adv ab. cbn [andb] in H. inversion H; subst fm. split.
+    2:{ intros f s k Hsy. cbn [seek_sem sk eval e_i e_o esub nat_or]. unfold seq_seek. rewrite Hsy.
+        destruct strict.
+        - destruct (pos s <? k) eqn:E1.
+          + apply Nat.ltb_lt in E1. replace (pos s + (k - pos s)) with k by lia. reflexivity.
+          + reflexivity.
+        - destruct (pos s <=? k) eqn:E1.
+          + apply Nat.leb_le in E1. replace (pos s + (k - pos s)) with k by lia. reflexivity.
+          + reflexivity. }
     intros f s n str ai Hs. rewrite (check_pass_sound _ _ Ep). cbn [body_sem rd].
     now apply check_loop_sound.
   - destruct (check_loop t) eqn:El; [|discriminate]. inversion H; subst fm. split; [|reflexivity].
@@ -164,7 +174,7 @@ Proof.
   unfold glue_sem, iterload. rewrite Eg, Est.
   repeat match goal with H : _ = true |- _ => rewrite H; clear H end.
   cbn [seek_wanted]. replace (c =? 0) with false by (symmetry; apply Nat.eqb_neq; lia).
-  rewrite Hsk.
+  rewrite Hsk by reflexivity.
   assert (E : forall s1, glue_loop fuel StopLen0 true c (fun s => reader_sem r f s (Some c) str ai) s1 =
                          iter_loop fuel (fun s => rd junk fm f s (Some c) str ai) s1).
   { intros s1. rewrite (glue_loop_ext _ _ _ _ (fun s => rd junk fm f s (Some c) str ai)); [apply glue_loop_iter|].
@@ -198,7 +208,7 @@ Proof.
   destruct (classify_sound r fm Hr) as [Hrd Hsk].
   unfold check_loader in Hd. repeat (apply andb_true_iff in Hd as [Hd ?]).
   unfold loader_sem, load. repeat match goal with H : _ = true |- _ => rewrite H; clear H end.
-  destruct fm; try (destruct frame as [k|]; [rewrite Hsk; destruct (sk _ f st0 k); [rewrite Hrd by assumption|]; reflexivity
+  destruct fm; try (destruct frame as [k|]; [rewrite Hsk by reflexivity; destruct (sk _ f st0 k); [rewrite Hrd by assumption|]; reflexivity
                                             | rewrite Hrd by assumption; reflexivity]).
   exfalso. eapply Hpdb. reflexivity.
 Qed.
